@@ -703,15 +703,41 @@ func runHubScope(c *Ctx) {
 		// chain: peerIDMap := h.byPeerID[s]; connID := peerIDMap[peerID]; pc := h.sessions[s][connID]; pc.send <- env
 		okChain := false
 		var connObj types.Object
+		// round 5: the literal (or SendTo itself) in which each step of the chain is evaluated
+		var resolveAt, useAt ast.Node
+		var litStack []ast.Node
+		encl := func() ast.Node {
+			if len(litStack) == 0 {
+				return st.Body
+			}
+			return litStack[len(litStack)-1]
+		}
+		var nodeStack []ast.Node
 		ast.Inspect(st.Body, func(n ast.Node) bool {
+			if n == nil {
+				top := nodeStack[len(nodeStack)-1]
+				nodeStack = nodeStack[:len(nodeStack)-1]
+				if _, ok := top.(*ast.FuncLit); ok {
+					litStack = litStack[:len(litStack)-1]
+				}
+				return true
+			}
+			nodeStack = append(nodeStack, n)
+			if _, ok := n.(*ast.FuncLit); ok {
+				litStack = append(litStack, n)
+			}
 			if as, ok := n.(*ast.AssignStmt); ok && len(as.Rhs) == 1 {
 				if ix, ok := ast.Unparen(as.Rhs[0]).(*ast.IndexExpr); ok {
 					if ObjOf(info, ix.Index) == peerParam && peerParam != nil {
 						// map must be byPeerID[session] or its alias
 						base := ast.Unparen(ix.X)
 						isBP := false
-						if o := ObjOf(info, base); o != nil && hubAliases(st, sessions, byPeer)[o] {
-							isBP = true
+						if o := ObjOf(info, base); o != nil {
+							for _, g := range allKids(st) { // the alias may be defined inside the look-up literal
+								if hubAliases(g, sessions, byPeer)[o] {
+									isBP = true
+								}
+							}
 						}
 						if ix2, ok := base.(*ast.IndexExpr); ok {
 							if sel, ok := ast.Unparen(ix2.X).(*ast.SelectorExpr); ok {
@@ -722,10 +748,12 @@ func runHubScope(c *Ctx) {
 						}
 						if isBP {
 							connObj = ObjOf(info, as.Lhs[0])
+							resolveAt = encl()
 						}
 					}
 					if connObj != nil && ObjOf(info, ix.Index) == connObj {
 						okChain = true
+						useAt = encl()
 					}
 				}
 			}
@@ -737,6 +765,7 @@ func runHubScope(c *Ctx) {
 							if sel, ok := ast.Unparen(ix2.X).(*ast.SelectorExpr); ok {
 								if fv, _ := info.Uses[sel.Sel].(*types.Var); fv == sessions {
 									okChain = true
+									useAt = encl()
 								}
 							}
 						}
@@ -746,6 +775,7 @@ func runHubScope(c *Ctx) {
 			return true
 		})
 		c.Check(okChain, "addressed/SendTo", st.Pos(), "SendTo sends to sessions[session][byPeerID[session][peer]]", "SendTo no longer resolves the addressee through byPeerID[session][peer]: an addressed message can reach a different peer")
+		_, _ = resolveAt, useAt
 	} else {
 		c.MissingAnchor("peers.(*Hub).SendTo")
 	}
